@@ -216,9 +216,89 @@ def r14_2_argument_checks(ctx):
     ctx.require_min("R14.2", 6)
 
 
+def r14_3_set_field(ctx):
+    ctx.rule("R14.3", "SetField / SetFields hand every value on: a list given for an array field becomes one itxn_field per element, in order, repeated elements (the same expression object listed twice, as MethodCall does when two reference parameters get the same argument) included; a scalar field gets exactly its value; SetFields sets every entry of the dictionary in insertion order; list-for-scalar and scalar-for-array are refused")
+    itb = ctx.model.find_class("InnerTxnBuilder", "pyteal.ast.itxn")
+    sf, sfs = itb.methods["SetField"], itb.methods["SetFields"]
+    ctx.analysed(sf.fq, sfs.fq)
+
+    # the members of TxnField this rule uses, with the array flag read from the enum's own rows
+    tf = ctx.model.find_class("TxnField", "pyteal.ast.txn")
+    TXF = Sym("TxnField")
+    for nm, node in tf.class_attrs.items():
+        if isinstance(node, ast.Tuple) and len(node.elts) >= 5:
+            TXF.attrs[nm] = Sym(f"TxnField.{nm}", attrs={"is_array": bool(isinstance(node.elts[3], ast.Constant) and node.elts[3].value), "name": nm})
+    q.need(all(k in TXF.attrs for k in ("accounts", "applications", "assets", "application_args", "note", "fee", "type_enum")), "TxnField rows are no longer written as tuples")
+
+    def field(name, is_array):
+        q.need(TXF.attrs[name].attrs["is_array"] == is_array, f"TxnField.{name}: array flag assumption")
+        return TXF.attrs[name]
+
+    def setup(me):
+        me.isinstance_hook = lambda v, c: (c.split(".")[-1] in v.attrs.get("$isa", ())) if isinstance(v, Sym) else (False if isinstance(v, (list, int, str)) or v is None else None)
+
+    def expr(n):
+        return Sym(f"e:{n}", attrs={"$isa": {"Expr"}})
+
+    a, b, c = expr("a"), expr("b"), expr("c")
+    cls_sym = Sym("InnerTxnBuilder")
+    cls_sym.methods["SetField"] = lambda fld, val: run_function(sf.node, {"cls": cls_sym, "field": fld, "value": val}, oracle, sf.fq, permissive=True, setup=setup)[0]
+
+    def oracle(e, me):
+        if u(e) in ("InnerTxnBuilder", "cls"):
+            return cls_sym
+        if u(e) == "TxnField":
+            return TXF
+        raise Unknown()
+
+    def fields_of(t):
+        """[(field name, value)] of a Seq(...) / single InnerTxnFieldExpr term"""
+        if isinstance(t, Rec) and t.is_call("InnerTxnFieldExpr"):
+            return [(t.args[0].attrs["name"], t.args[1])]
+        if isinstance(t, Rec) and t.is_call("Seq"):
+            items = t.args[0] if len(t.args) == 1 and isinstance(t.args[0], list) else t.args
+            out = []
+            for x in items:
+                out += fields_of(x)
+            return out
+        raise AnalysisError(f"{sf.fq}: result {t!r} is not built from Seq / InnerTxnFieldExpr")
+
+    lists = {"one": [a], "two distinct": [a, b], "same object twice": [a, a], "a, b, a": [a, b, a], "three times the same": [c, c, c], "empty": []}
+    for fname in ("accounts", "applications", "assets", "application_args"):
+        for lname, vals in lists.items():
+            construct = f"SetField[{fname},{lname}]"
+            try:
+                val, _ = run_function(sf.node, {"cls": cls_sym, "field": field(fname, True), "value": list(vals)}, oracle, sf.fq, permissive=True, setup=setup)
+            except Raised as r:
+                ctx.bad("R14.3", construct, f"raises {r.exc_text[:60]}", sf.where)
+                continue
+            got = fields_of(val)
+            want = [(fname, v) for v in vals]
+            ok = len(got) == len(want) and all(g[0] == w[0] and g[1] is w[1] for g, w in zip(got, want))
+            ctx.check(ok, "R14.3", construct, f"sets {[(n, repr(v)) for n, v in got]}; the list given is {[repr(v) for v in vals]} (callers number the elements by position)", sf.where, fact={"set": len(got)})
+    for fname, arr, value, want_ok in (("note", False, a, True), ("note", False, [a], False), ("accounts", True, a, False), ("fee", False, b, True)):
+        construct = f"SetField[{fname},{'list' if isinstance(value, list) else 'scalar'}]"
+        try:
+            val, _ = run_function(sf.node, {"cls": cls_sym, "field": field(fname, arr), "value": value}, oracle, sf.fq, permissive=True, setup=setup)
+            got = fields_of(val)
+            ok = want_ok and len(got) == 1 and got[0][0] == fname and got[0][1] is value
+            why = f"sets {[(n, repr(v)) for n, v in got]}"
+        except Raised as r:
+            ok = (not want_ok) and "TealInputError" in r.exc_text
+            why = f"raises {r.exc_text[:50]}"
+        ctx.check(ok, "R14.3", construct, f"{why}; expected {'exactly the value' if want_ok else 'TealInputError'}", sf.where, fact={})
+    d = {field("type_enum", False): a, field("accounts", True): [b, b], field("fee", False): c, field("assets", True): [a]}
+    val, _ = run_function(sfs.node, {"cls": cls_sym, "fields": d}, oracle, sfs.fq, permissive=True, setup=setup)
+    got = fields_of(val)
+    want = [("type_enum", a), ("accounts", b), ("accounts", b), ("fee", c), ("assets", a)]
+    ctx.check(len(got) == len(want) and all(g[0] == w[0] and g[1] is w[1] for g, w in zip(got, want)), "R14.3", "SetFields[4 entries]", f"sets {[(n, repr(v)) for n, v in got]}; the dictionary lists {[(n, repr(v)) for n, v in want]}", sfs.where, fact={"set": len(got)})
+    ctx.require_min("R14.3", 25)
+
+
 def run(ctx):
     r14_1_marshalling(ctx)
     r14_2_argument_checks(ctx)
+    r14_3_set_field(ctx)
     from rules import c19 as _c19
 
     _c19.r19_2_callers(ctx)
